@@ -366,6 +366,40 @@ class Check:
             raise ModelFailure('; '.join(errors[:3]))
         return sorted(failing)
 
+
+    def coq_eval_ints(self, header, cases, fn, shard=200, tag='eval', timeout=900):
+        """Evaluates `fn case : list Z` for every case inside Coq (vm_compute) and returns the integer
+        lists, one per case - used where the comparison itself cannot be done in Coq (floating-point log)."""
+        if not cases:
+            return []
+        out = []
+        files = []
+        for k in range(0, len(cases), shard):
+            f = self.work / f'{tag}_{k // shard:04d}.v'
+            body = [header, 'Definition cases := [', ';\n'.join(cases[k:k + shard]), '].',
+                    f'Eval vm_compute in (map {fn} cases).']
+            f.write_text('\n'.join(body) + '\n')
+            files.append((k, f))
+        procs = []
+        for k, f in files:
+            procs.append((k, f, subprocess.Popen(['timeout', str(timeout), 'coqc', '-Q', str(THEORIES), 'Hpotk', '-w', '-notation-overridden', f.name],
+                                                  cwd=str(self.work), stdout=subprocess.PIPE, stderr=subprocess.PIPE, text=True)))
+            if len(procs) >= NCPU:
+                pass
+        for k, f, p in procs:
+            o, e = p.communicate()
+            if p.returncode != 0:
+                raise ModelFailure(f'{f.name}: exit {p.returncode}: {(o + e)[-1500:]}')
+            txt = o[o.index('='):]
+            txt = txt[:txt.rindex(':')]
+            lists = re.findall(r'\[([^\[\]]*)\]', txt)
+            expected = min(shard, len(cases) - k)
+            if len(lists) != expected:
+                raise ModelFailure(f'{f.name}: parsed {len(lists)} results, expected {expected}')
+            for l in lists:
+                out.append([int(x) for x in re.findall(r'-?\d+', l.replace('%Z', ''))])
+        return out
+
     # ---- verdicts ----------------------------------------------------------------------------
     def report_violation(self, signature, replay, what=''):
         """signature: stable identifier of WHAT fails (used to match known findings)."""
